@@ -524,12 +524,18 @@ inductive Expr where
   | index (e i : Expr)                                  -- e[i]
   | sliceTo (e n : Expr)                                -- e[:n]
   | sliceFrom (e n : Expr)                              -- e[n:]
+  | newList                                             -- []
+  | newDict                                             -- {}
+  | newLock                                             -- threading.Lock()
   deriving Repr, Inhabited
 
 /-- Does the expression CREATE the list it evaluates to (so that no other name reaches the same object)? -/
 def Expr.makesNew : Expr → Bool
   | .sliceTo .. => true
   | .sliceFrom .. => true
+  | .newList => true
+  | .newDict => true
+  | .newLock => true
   | _ => false
 
 /-- Is the expression a plain local variable? -/
@@ -716,6 +722,9 @@ def eval (cx : Ctx) (env : Env) : Expr → Except PyErr Val
     (match eval cx env e with
      | .error err => .error err
      | .ok x => (match eval cx env n with | .error err => .error err | .ok y => pySlice false x y))
+  | .newList => .ok (.list [])
+  | .newDict => .ok (.dict [])
+  | .newLock => .ok (.lock false)
 def evalList (cx : Ctx) (env : Env) : List Expr → Except PyErr (List Val)
   | [] => .ok []
   | e :: es =>
